@@ -18,6 +18,16 @@ class AlphaTwo(Alpha):
     """A variant of a command of the same library: only class attributes differ, execute() is inherited."""
     display_name = "Alpha, second flavour"
 ''',
+    "fuzzy.py": '''
+from mpilot import params
+from mpilot.commands import Command
+class UserFuzz(Command):
+    """A user's own top-level module that happens to be called like the last part of a built-in library's name."""
+    output = params.StringParameter()
+    def execute(self, **kw):
+        open("cover_by.txt", "a").write("fuzzy.UserFuzz\\n")
+        return "fuzzy.UserFuzz"
+''',
     "canopy.py": '''
 from mpilot import params
 from mpilot.commands import Command
@@ -286,6 +296,12 @@ def describe(libs):
         lookups["libraries-list-extended-later"] = "raises:" + type(e).__name__
     except Exception as e:
         lookups["libraries-list-extended-later"] = "raw:" + type(e).__name__
+    # commands defined in the main module of the process are the library "__main__"
+    try:
+        mainlib = Program(libraries=("__main__",)).command_library
+        lookups["main-module-library"] = "has-MainCmd" if "MainCmd" in mainlib else "lacks-MainCmd"
+    except Exception as e:
+        lookups["main-module-library"] = "raises:" + type(e).__name__
     return {"outcome": "ok", "library": lib, "lookups": lookups}
 
 
@@ -325,6 +341,10 @@ def main():
         with open(path, "w") as f:
             f.write(src)
     sys.path.insert(0, d)
+    # a command defined in the main module of this process (started with python -m: the module has an import spec)
+    from mpilot.commands import Command as _C
+    from mpilot import params as _P
+    type(_C)("MainCmd", (_C,), {"__module__": "__main__", "output": _P.StringParameter(), "execute": lambda self, **kw: "main.MainCmd"})
     steps_seen = []
     for step in spec["history"]:
         kind = step[0]
@@ -370,6 +390,10 @@ def main():
             os.remove("cover_by.txt")
         r = cli_run(d, "eems-csv", ["canopy"], model="C = Cover()\n")
         out["cli"]["-l canopy"] = r + [open("cover_by.txt").read().split() if os.path.exists("cover_by.txt") else None]
+        if os.path.exists("cover_by.txt"):
+            os.remove("cover_by.txt")
+        r = cli_run(d, "eems-csv", ["fuzzy"], model="U = UserFuzz()\n")
+        out["cli"]["-l fuzzy (a user module)"] = r + [open("cover_by.txt").read().split() if os.path.exists("cover_by.txt") else None]
     finally:
         os.chdir(cwd)
     out["steps"] = steps_seen
